@@ -25,6 +25,7 @@ ASSUME = {
     "A-codec": "A-codec: bincode decode returns Ok(s) iff the bytes are encode(s); encode is injective and prefix-free; SeaHasher is a function of the bytes written",
     "A-cmd": "A-cmd: running build_command(script, dir) yields the world's cmd(dir, script)",
     "A-all": "A-all: async_utils::all / both, future::join / try_join_all, Result::map, collect() behave as their names say (true iff every future is; one result per element in order; fold of insert); the per-element closures are outlined and verified (R13)",
+    "A-str": "A-str: str/Path/OsStr predicates (ends_with, starts_with, file_name, to_string_lossy, is_in_work_dir, matches_extensions) are uninterpreted functions; to_string_lossy is total",
     "A-notify": "A-notify: notify calls the handler for every event under a watched path that existed at watch() time",
     "A-yaml": "A-yaml: serde_yaml / clap parsing are not modelled; load_project is an arbitrary function returning Result<Project>",
     "A-arith": "A-arith: machine integers; Verus checks overflow on the usize/u64 arithmetic in scope",
@@ -44,7 +45,7 @@ PROPS = {
     "C03": {"units": ["INC"], "level": "proof", "assume": INCA,
             "not_covered": ["not covered: 're-running executes no script' across two processes is the conjunction of C03.record at the end of run 1 and C03.reflexive at the start of run 2 under A-codec, not a two-process experiment; a read error on the state file forces a rebuild"]},
     "C05": {"units": ["INC", "BLD", "ACT"], "level": "proof", "assume": INCA + ["A-chan", "A-proc", "R16"]},
-    "C06": {"units": ["ACT", "RELAY", "INC"], "level": "proof", "assume": ACTORS + ["A-notify", "A-fs", "A-codec"],
+    "C06": {"units": ["ACT", "RELAY", "INC", "WCH"], "level": "proof", "assume": ACTORS + ["A-notify", "A-fs", "A-codec"],
             "not_covered": ["not covered: convergence as a liveness statement; notify's delivery guarantees"]},
     "C07": {"units": ["BLD", "ACT", "RELAY"], "level": "proof", "assume": ACTORS,
             "not_covered": ["not covered: the text of the error message"]},
@@ -53,6 +54,8 @@ PROPS = {
     "C10": {"units": ["BLD", "ACT", "RELAY"], "level": "proof", "assume": ACTORS,
             "not_covered": ["not covered: any latency bound; grandchildren of the shell; the hand-off from the signal handler task"]},
     "C11": {"units": ["ACT", "RELAY"], "level": "proof", "assume": ACTORS},
+    "C16": {"units": ["WCH"], "level": "proof", "assume": ["A-std", "A-chan", "A-notify", "A-str", "A-all"],
+            "not_covered": ["not covered: notify itself, recursion into directories created later; the byte-level behaviour of the str predicates (bounded Kani harnesses in the KANI unit)"]},
     "C18": {"units": ["INC"], "level": "proof", "assume": INCA,
             "not_covered": ["not covered: injectivity of the state-file name formatting (string reasoning); canonicalisation of project directories (A-yaml side)"]},
     "C20": {"units": ["ACT", "RELAY"], "level": "proof", "assume": ACTORS,
